@@ -1,13 +1,14 @@
 #!/bin/bash
-# Development aid, not used by any registered check: a copy of /verif under /tmp/lab/verif whose harness
-# depends on the scratch worktree /tmp/lab/repo, so that seeded changes can be tried while a long `vp run`
-# is using /repo itself. Use:  SEED_REPO=/tmp/lab/repo /tmp/lab/verif/seedtest.py <patch> C01 ...
-#   or with process_seed.py:   SEEDTEST=/tmp/lab/verif/seedtest.py SEED_REPO=/tmp/lab/repo ./process_seed.py ...
-# Remove with:  git -C /repo worktree remove --force /tmp/lab/repo; rm -rf /tmp/lab
+# Development aid, not used by any registered check: a copy of /verif under ${LAB}/verif whose harness
+# depends on the scratch worktree ${LAB}/repo, so that seeded changes can be tried while a long `vp run`
+# is using /repo itself. Use:  SEED_REPO=${LAB}/repo ${LAB}/verif/seedtest.py <patch> C01 ...
+#   or with process_seed.py:   SEEDTEST=${LAB}/verif/seedtest.py SEED_REPO=${LAB}/repo ./process_seed.py ...
+# Remove with:  git -C /repo worktree remove --force ${LAB}/repo; rm -rf ${LAB}
 set -e
-mkdir -p /tmp/lab
-if [ ! -d /tmp/lab/repo ]; then git -C /repo worktree add --detach /tmp/lab/repo >/dev/null; fi
-git -C /tmp/lab/repo checkout -q --detach "$(git -C /repo rev-parse HEAD)"
-rsync -a --exclude 'target*' --exclude /work --exclude /replays --exclude .git /verif/ /tmp/lab/verif/
-sed -i 's#path = "/repo"#path = "/tmp/lab/repo"#' /tmp/lab/verif/harness/wv-drive/Cargo.toml /tmp/lab/verif/harness/fuzzproj/fuzz/Cargo.toml
-echo "lab ready: $(git -C /tmp/lab/repo rev-parse --short HEAD)"
+LAB=${LAB:-/tmp/lab}
+mkdir -p ${LAB}
+if [ ! -d ${LAB}/repo ]; then git -C /repo worktree add --detach ${LAB}/repo >/dev/null; fi
+git -C ${LAB}/repo checkout -q --detach "$(git -C /repo rev-parse HEAD)"
+rsync -a --exclude 'target*' --exclude /work --exclude /replays --exclude .git /verif/ ${LAB}/verif/
+sed -i "s#path = \"/repo\"#path = \"${LAB}/repo\"#" ${LAB}/verif/harness/wv-drive/Cargo.toml ${LAB}/verif/harness/fuzzproj/fuzz/Cargo.toml
+echo "lab ready: $(git -C ${LAB}/repo rev-parse --short HEAD)"
